@@ -19,6 +19,7 @@ import PoetryVerif.Proofs.MarkerAlgSoundVerEqv
 import PoetryVerif.Proofs.MarkerAlgSoundVerInv
 import PoetryVerif.Proofs.MarkerAlgSoundVerMk
 import PoetryVerif.Proofs.MarkerAlgSoundPv
+import PoetryVerif.Proofs.MarkerAlgSoundPfv
 import PoetryVerif.Proofs.MarkerPrint
 
 set_option linter.unusedSimpArgs false
@@ -458,6 +459,68 @@ example : mkSingle "python_version" ">=3.8" false = .ok (pvLeafOf .ge ">=" 3 8) 
   have e1 : holds exEnvPv (.leaf (.single (pvLeafOf .ge ">=" 3 8))) = true := by decide
   have e2 : holds exEnvPv (.leaf (.single (pvLeafOf .lt "<" 3 9))) = false := by decide
   rw [e1, e2]; rfl
+
+/-- **The constructor fact for `python_full_version` with the `.0` padding**: for a list `B` of Python bounds
+(final releases of one to three components) that contains the padded form `X.Y.0` / `X.0.0` of its short members,
+`SingleMarker("python_full_version", str(c))` for a simple constraint `c` over `B` re-reads (the constructor pads
+a one- or two-component numeric value to three components) to a leaf admitting every final release exactly when
+`c` does. -/
+theorem mkVerOK_python_full_version_padded {B : List Version} (hpb : ∀ e ∈ B, PyBound e = true)
+    (hpad : ∀ x r, litV x r ∈ B → litV x (padR r) ∈ B) (X : Nat) (R : List Nat) :
+    MkVerOK B "python_full_version" (litV X R) := mkVerOK_pfv_py hpb hpad X R
+
+/-- `SingleMarker("python_full_version", ">=3.8")` is `python_full_version >= "3.8.0"` -/
+example : mkSingle "python_full_version" ">=3.8" false = .ok (pfvLeafOf .ge ">=" 3 [8, 0]) := by
+  have t1 : ">=" ++ Version.relText [3, 8] = ">=3.8" := by decide
+  exact t1 ▸ mkSingle_pfvLeaf (sop := .ge) (ops := ">=") (by decide) 3 [8]
+
+/-- **The leaf facts for same-name `python_full_version` leaves with their text, no hypothesis**: leaves
+`python_full_version <op> "X.Y.Z"` (`== != < <= > >=`), in every environment whose `python_full_version` is a
+final release. -/
+theorem leafSpec_python_full_version {X : Nat} {R : List Nat}
+    (hE : E.get? "python_full_version" = some (Version.relText (X :: R))) :
+    LeafSpec (leafEval E) Pfv3Leaf := leafSpec_pfv3 hE
+
+/-- **`_merge_single_markers` on two `python_full_version` leaves over Python bounds, with the outcome's text**
+(what the python_version/python_full_version pairing re-parses): exact, and the result is Empty, Any, one of the
+operands, or a leaf `python_full_version <op> "a.b.c"`. -/
+theorem python_full_version_merge_outcome {B : List Version} (hpb : ∀ e ∈ B, PyBound e = true)
+    (hpad : ∀ x r, litV x r ∈ B → litV x (padR r) ∈ B) {X : Nat} {R : List Nat}
+    (hX : E.get? "python_full_version" = some (Version.relText (X :: R)))
+    (d : Nat) (l1 l2 : Leaf) (im : Bool) (r : M)
+    (h1 : VerLeaf B "python_full_version" l1) (h2 : VerLeaf B "python_full_version" l2)
+    (h : mergeSingle d l1 l2 im = .ok (some r)) :
+    M.Good (VerLeaf B "python_full_version") r ∧
+      M.sem (leafEval E) r = (if im then (leafEval E l1 && leafEval E l2) else (leafEval E l1 || leafEval E l2)) ∧
+      PfvOutcome l1 l2 r := verLeaf_merge_text hpb hpad hX d l1 l2 im r h1 h2 h
+
+/-- **Intersection and union on the full comparison-operator domain, relative to the pairing only**: markers over
+plain string variables, `extra`, `python_version <op> "X.Y"` and `python_full_version <op> "X.Y.Z"` leaves, in
+an environment of interpreter `X.Y.Z` defining the extras.  The only hypothesis left is `PairSound`: the
+python_version/python_full_version pairing of `_merge_single_markers` is exact between the two python fragments
+(the C11/C17 conversion proofs). -/
+theorem intersect_union_sound_full_partial {ex : List String} (hX : E.extras = some ex) {X Y Z : Nat}
+    (hE : EnvPy E X Y Z) (HP : PairSound (leafEval E) PvLeaf Pfv3Leaf) {a b r : M}
+    (ha : M.Good (FullLeaf E) a) (hb : M.Good (FullLeaf E) b) :
+    (mIntersect fuel stk a b = .ok r →
+      M.Good (FullLeaf E) r ∧ M.validate E r = .ok (holds E a && holds E b)) ∧
+    (mUnion fuel stk a b = .ok r →
+      M.Good (FullLeaf E) r ∧ M.validate E r = .ok (holds E a || holds E b)) :=
+  ⟨fun h => by
+      have := intersect_sound_partial (leafSpec_full hX hE HP)
+        (fun l hl => fullLeaf_evaluable hX hE hl) ha hb h
+      exact ⟨this.1, this.2.2⟩,
+   fun h => by
+      have := union_sound_partial (leafSpec_full hX hE HP)
+        (fun l hl => fullLeaf_evaluable hX hE hl) ha hb h
+      exact ⟨this.1, this.2.2⟩⟩
+
+def exEnvFull : Env := ⟨[("python_version", "3.9"), ("python_full_version", "3.9.1"), ("sys_platform", "a")], some []⟩
+
+example : EnvPy exEnvFull 3 9 1 ∧ M.Good (FullLeaf exEnvFull) (.leaf (.single (pfvLeafOf .lt "<" 3 [10, 0]))) ∧
+    M.Good (FullLeaf exEnvFull) (.leaf (.single (pvLeafOf .ge ">=" 3 8))) :=
+  ⟨⟨by decide, by decide⟩, (M.good_leaf _).2 (Or.inr (Or.inr ⟨.lt, "<", 3, 10, 0, by decide, rfl⟩)),
+    (M.good_leaf _).2 (Or.inr (Or.inl ⟨.ge, ">=", 3, 8, by decide, rfl⟩))⟩
 
 /-- the leaf facts that remain hypotheses outside the string fragment, as one visible statement:
 version-like variables (through C05's exactness on regular probes), the
